@@ -2,6 +2,7 @@ package vc
 
 import (
 	"encoding/json"
+	"os/exec"
 	"fmt"
 	"os"
 	"path/filepath"
@@ -142,6 +143,32 @@ func Report(p *Program, units []*Unit, o CheckOpts, work string) int {
 	if len(units) == 0 {
 		viol = append(viol, Violation{Obligation: o.Prop + "/vacuity", Reason: "no contract is tagged with this property", NoInput: true})
 	}
+	// known findings: a listed obligation whose witness still fails on the real code is reported as KNOWN-FINDING
+	var kfSeen []string
+	if kfs := loadKnownFindings(filepath.Join(o.Verif, "known_findings.json"), o.Prop); len(kfs) > 0 {
+		var rest []Violation
+		for _, v := range viol {
+			matched := false
+			for _, kf := range kfs {
+				if kf.Obligation != v.Obligation {
+					continue
+				}
+				present, out := runWitness(o, kf)
+				if present {
+					fmt.Printf("KNOWN-FINDING: property=%s %s (obligation %s; witness %s still fails on the real code)\n", o.Prop, kf.What, kf.Obligation, kf.Witness.Run)
+					kfSeen = append(kfSeen, kf.Obligation+": "+kf.What)
+					matched = true
+					nObl-- // not counted among the claimed obligations
+				} else {
+					v.Reason += " | listed known finding does not explain it: witness " + kf.Witness.Run + " passes on this tree: " + trimOut(out)
+				}
+			}
+			if !matched {
+				rest = append(rest, v)
+			}
+		}
+		viol = rest
+	}
 	sort.Slice(slows, func(i, j int) bool { return slows[i].s > slows[j].s })
 	var slowest []map[string]interface{}
 	for i := 0; i < len(slows) && i < 5; i++ {
@@ -182,7 +209,7 @@ func Report(p *Program, units []*Unit, o CheckOpts, work string) int {
 			"checker_cmd":              fmt.Sprintf("bin/gocv check --property %s --tier %s", o.Prop, o.Tier),
 			"trusted_base":             append([]string{"gocv VC generator (this repository, /verif/engine)", "z3 5.1.0 (z3-new), cvc5 1.0, z3 4.8.12", "go/types type checker"}, LibModels...),
 			"functions_under_contract": funcs, "by_solver": bs, "slowest": slowest, "samples": samples,
-			"vacuity_cover_queries": covers,
+			"vacuity_cover_queries": covers, "known_findings_seen": kfSeen,
 		},
 		"assumptions": assume, "wall_s": round3(time.Since(o.Start).Seconds()), "violations": len(viol),
 	}
@@ -204,4 +231,62 @@ var GlobalAssumptions = []string{
 	"A3: slices/strings are value sequences (backing array, offset, length); aliasing between distinct live slices is not modelled",
 	"A4: Go semantics as implemented by the gocv lowering (validated by the must-fail selftest corpus, not proved)",
 	"A7: an unsat answer from one SMT solver is accepted in the quick tier",
+}
+
+type KnownFinding struct {
+	Property   string `json:"property"`
+	Obligation string `json:"obligation"`
+	What       string `json:"what"`
+	Witness    struct {
+		Pkg  string `json:"pkg"`
+		File string `json:"file"`
+		Run  string `json:"run"`
+	} `json:"witness"`
+}
+
+func loadKnownFindings(path, prop string) []KnownFinding {
+	data, err := os.ReadFile(path)
+	if err != nil {
+		return nil
+	}
+	var doc struct {
+		Findings []KnownFinding `json:"findings"`
+	}
+	if json.Unmarshal(data, &doc) != nil {
+		return nil
+	}
+	var out []KnownFinding
+	for _, f := range doc.Findings {
+		if f.Property == prop {
+			out = append(out, f)
+		}
+	}
+	return out
+}
+
+// runWitness injects the finding's test into the package with go test -overlay; true = the test fails (defect present).
+func runWitness(o CheckOpts, kf KnownFinding) (bool, string) {
+	return RunOverlayTest(o.Repo, o.Verif, kf.Witness.Pkg, filepath.Join(o.Verif, kf.Witness.File), kf.Witness.Run, "kf_"+sanitize(kf.Witness.Run))
+}
+
+// RunOverlayTest runs one in-package test file against /repo without writing into it. Returns (failed, output).
+func RunOverlayTest(repo, verif, pkg, testFile, run, tag string) (bool, string) {
+	work := filepath.Join(verif, "work", "overlay")
+	os.MkdirAll(work, 0o755)
+	target := filepath.Join(repo, pkg, "zz_"+tag+"_test.go")
+	ov := map[string]interface{}{"Replace": map[string]string{target: testFile}}
+	data, _ := json.Marshal(ov)
+	ovFile := filepath.Join(work, tag+".json")
+	os.WriteFile(ovFile, data, 0o644)
+	args := []string{"test", "-overlay", ovFile, "-vet=off", "-count=1", "-timeout", "120s", "-run", "^" + run + "$", "./" + pkg + "/"}
+	cmd := execCommand(repo, "go", args...)
+	out, err := cmd.CombinedOutput()
+	return err != nil, string(out)
+}
+
+func execCommand(dir, name string, args ...string) *exec.Cmd {
+	cmd := exec.Command(name, args...)
+	cmd.Dir = dir
+	cmd.Env = append(os.Environ(), "GOFLAGS=-mod=mod", "GOPROXY=off", "GOSUMDB=off", "GOTOOLCHAIN=local")
+	return cmd
 }
